@@ -30,5 +30,6 @@ ClausesMisc(e) ==
     [] e.ev \in ExtraEvents -> ClausesExtra(e)
     [] e.ev \in TextEvents -> ClausesText(e)
     [] e.ev = "artifact" -> ClausesArtifact(e)
+    [] e.ev = "store_op" -> ClausesStoreOp(e)
     [] e.ev \in WireEvents -> ClausesWire(e)
 =============================================================================
